@@ -5,7 +5,7 @@
 
   The content of a typed container is a `Val` (nested typed containers are nested `Val`s whose
   own spec is the element / field spec: `apply` recurses into them).  The model mirrors /repo with
-  fixes/C03-F08.patch and fixes/C03-F60.patch applied:
+  fixes/C03-F08.patch and fixes/C03-F73.patch applied:
     * the size bounds are checked inside the list write primitive (growth) and in `__delitem__`
       (shrinking), so every write path consults them;
     * a rejected `Dict.clear()` restores content and value spec.
@@ -307,7 +307,7 @@ def Arg.val : Arg → Val
 (value_specs.py 280-287; `custom_apply`, list.py / dict.py): the destination must declare itself
 compatible with the bound spec (else ValueError); if the partial modes agree the value is
 *trusted* and stored without validation, otherwise it is validated by the standard apply
-(with the F62 repair: a partial container is refused by a destination that requires a complete
+(with the F75 repair: a partial container is refused by a destination that requires a complete
 value).  `partialB` is `value.is_partial`. -/
 def applyArg (env : Env) (dest : Spec) (p : Bool) (partialB : Val → Bool) : Arg → R Val
   | .plain v => apply env dest p v
@@ -367,7 +367,7 @@ def dictStep (env : Env) (p : Bool) (pb : Val → Bool) (d : TDict) : DictOp →
     | some x => if x.isMissing then dictPrim env p pb d k v else (d, none)   -- 798-806
     | none => dictPrim env p pb d k v
   | .update kvs => dictBatch env p pb d kvs
-  | .clear =>                                                             -- 787-796 with the F60 repair
+  | .clear =>                                                             -- 787-796 with the F73 repair
     match schemaApply env d.fields p [] with
     | .ok kvs => ({ d with kvs := kvs }, none)
     | .error e => (d, some (ofErr e))
